@@ -14,7 +14,7 @@ apply = "--apply" in sys.argv
 idl = ID.lower()
 S = f"/var/tmp/fv-x{idl}/verif"
 R = f"/var/tmp/fv-x{idl}/repo"
-V = "/verif"
+V = os.environ.get("INTEGRATE_INTO", "/verif")
 SKIP_DIRS = ("lean/.lake", "replays", "evidence", "coverage", "seeded", ".git", "__pycache__")
 SKIP_FILES = ("lean/FormulaicVerif/Engines.lean", "MANIFEST.json", "DESIGN.md")
 
@@ -25,7 +25,7 @@ def sh(c):
 
 mt = os.stat(f"/var/tmp/fv-x{idl}/PROMPT.txt").st_mtime
 base = None
-for line in sh(f"git -C {V} log --format='%h %ct'").stdout.split("\n"):
+for line in sh("git -C /verif log --format='%h %ct'").stdout.split("\n"):
     if line.strip():
         h, t = line.split()
         if int(t) <= mt:
@@ -35,7 +35,7 @@ print("base commit", base)
 
 
 def base_content(rel):
-    r = subprocess.run(["git", "-C", V, "show", f"{base}:{rel}"], capture_output=True)
+    r = subprocess.run(["git", "-C", "/verif", "show", f"{base}:{rel}"], capture_output=True)
     return r.stdout if r.returncode == 0 else None
 
 
